@@ -1,6 +1,6 @@
 (* Trie/CommitHist.v — the session invariant over every multi-generation history
    (path scheme): trie.New on the empty database or on the store left by an
-   earlier commit, then any Update / Delete / Get with keys and values shorter
+   earlier commit, then any Update / Delete / Get / GetNode with keys and values shorter
    than 2^32 bytes; hence C07 commit_reads_back for every such history. *)
 From GV Require Import Lib.Tactics Lib.Bytes Rlp.Codec Trie.Hex Trie.Node Trie.Ops Trie.Hash.
 From GV Require Import Trie.OpsProofs Trie.Canon Trie.Proof Trie.ProofProofs.
@@ -68,10 +68,12 @@ Section Hist.
   Theorem sess_delete_rep S ss F key ss' :
     sinv H S ss F -> forallb byteb key = true ->
     sess_update H PathScheme S ss key [] = TOk ss' ->
-    exists F' d,
+    exists F' d ev,
+      s_tr ss' = trace_evs (s_tr ss) ev /\
       rep H (resolve_of H PathScheme S) (dirty_at ss') (delp_of (s_tr ss')) true [] (s_root ss') F' /\
       forall fu', (length (keybytes_to_hex key) < fu')%nat ->
-        exists ev', delete (resolve_of H PathScheme S) fu' F [] (keybytes_to_hex key) = TOk (d, F', ev').
+        exists ev', delete (resolve_of H PathScheme S) fu' F [] (keybytes_to_hex key) = TOk (d, F', ev') /\
+                    nores ev' = nores ev.
   Proof.
     intros [GO Rp] BK E. unfold sess_update in E.
     set (k := keybytes_to_hex key) in *.
@@ -96,7 +98,7 @@ Section Hist.
     destruct (delete_rep H H_len (resolve_of H PathScheme S) (dirty_at ss) (dirty_at ss')
                 (delp_of (s_tr ss)) (delp_of (s_tr ss')) DM
                 _ _ _ _ _ _ _ _ _ DE Rp Wp DP DK) as (F' & X1 & _ & _ & _ & X5).
-    exists F', d. split; [exact X1|exact X5].
+    exists F', d, ev. split; [reflexivity|]. split; [exact X1|exact X5].
   Qed.
 
   (* the guard on operations: byte keys; keys and values shorter than 2^32 bytes *)
@@ -122,20 +124,20 @@ Section Hist.
     { intros F' [[X _]|[_ [->|Cn]]] Sz'; [subst k; rewrite X in Vk; inversion Vk|left; reflexivity|].
       right. split; [exact Cn|apply can_sizes_pwf; assumption]. }
     destruct v as [|x v].
-    - destruct (sess_delete_rep S ss F key ss' SI BK E) as (F' & d & Rp' & GR). fold k in GR.
+    - destruct (sess_delete_rep S ss F key ss' SI BK E) as (F' & d & evm & _ & Rp' & GR). fold k in GR.
       destruct (delete_spec (resolve_of H PathScheme S) (ops_fuel k) F [] k (ops_fuel_ok k) Wp)
         as (d0 & n0 & ev0 & DE0 & PO).
-      destruct (GR (ops_fuel k) (ops_fuel_ok k)) as [ev' DE']. rewrite DE0 in DE'. inversion DE'; subst d0 n0 ev0.
+      destruct (GR (ops_fuel k) (ops_fuel_ok k)) as (ev' & DE' & _). rewrite DE0 in DE'. inversion DE'; subst d0 n0 ev0.
       destruct PO as (_ & L1 & L2 & _ & _ & CP & _).
       assert (Sz' : gsizes F').
       { intros k' v' L'. destruct (list_eq_dec N.eq_dec k' k) as [->|NE]; [congruence|].
         rewrite (L2 k' NE) in L'. apply Sz. exact L'. }
       exists F'. split; [split; [apply FIN; [apply CP; exact Cp|exact Sz']|exact Rp']|].
       split; [exact Sz'|]. split; [exact L1|exact L2].
-    - destruct (sess_insert_rep H H_len S ss F key x v ss' SI BK E) as (F' & d & Rp' & GR). fold k in GR.
+    - destruct (sess_insert_rep H H_len S ss F key x v ss' SI BK E) as (F' & d & evm & _ & Rp' & GR). fold k in GR.
       destruct (insert_spec (resolve_of H PathScheme S) (ops_fuel k) F [] k (x :: v) (ops_fuel_ok k) Wp)
         as (d0 & n0 & ev0 & DE0 & PO).
-      destruct (GR (ops_fuel k) (ops_fuel_ok k)) as [ev' DE']. rewrite DE0 in DE'. inversion DE'; subst d0 n0 ev0.
+      destruct (GR (ops_fuel k) (ops_fuel_ok k)) as (ev' & DE' & _). rewrite DE0 in DE'. inversion DE'; subst d0 n0 ev0.
       destruct PO as (_ & _ & L1 & L2 & _ & _ & CP & _).
       assert (Sz' : gsizes F').
       { intros k' v' L'. destruct (list_eq_dec N.eq_dec k' k) as [->|NE].
@@ -159,11 +161,13 @@ Section Hist.
       sess_update H PathScheme S ss key v = TOk ss' -> reachable S ss'
   | r_get S ss key v ss' :
       reachable S ss -> forallb byteb key = true ->
-      sess_get H PathScheme S ss key = TOk (v, ss') -> reachable S ss'.
+      sess_get H PathScheme S ss key = TOk (v, ss') -> reachable S ss'
+  | r_getnode S ss path g ss' :
+      reachable S ss -> sess_getnode H PathScheme S ss path = (g, ss') -> reachable S ss'.
 
   Theorem reachable_sinv S ss : reachable S ss -> exists F, sinv H S ss F /\ gsizes F.
   Proof.
-    induction 1 as [ss O|S ss r ons ss2 Rch IH C O|S ss key v ss' Rch IH OK U|S ss key v ss' Rch IH BK G].
+    induction 1 as [ss O|S ss r ons ss2 Rch IH C O|S ss key v ss' Rch IH OK U|S ss key v ss' Rch IH BK G|S ss path g ss' Rch IH G].
     - destruct (open_sinv H H_len H_inj_empty [] _ NEmpty (store_ok_empty H)) as (ss0 & O0 & SI).
       rewrite O in O0. inversion O0; subst ss0. exists NEmpty. split; [exact SI|].
       intros k v L. rewrite lk_empty in L. discriminate.
@@ -176,6 +180,8 @@ Section Hist.
     - destruct IH as (F & SI & Sz).
       destruct (sess_get_sinv H H_len H_inj_empty S ss F key v ss' SI BK G) as [SI' _].
       exists F. split; assumption.
+    - destruct IH as (F & SI & Sz). exists F. split; [|exact Sz].
+      eapply sess_getnode_sinv; eassumption.
   Qed.
 
   (* C07 commit_reads_back, path scheme, FULL over multi-generation histories:
